@@ -72,6 +72,12 @@ func c08Spaces(tier string) []*explore.Space {
 	}
 	for _, l := range numberLexemes("0123579", lexLen) {
 		a0 = append(a0, l, gen.F("string", l), gen.B("+", l, lit("1", 1)), gen.B("=", l, lit(strconv.FormatFloat(l.(*gen.Num).V, 'f', -1, 64), l.(*gen.Num).V)))
+		// a number directly followed by an operator name or sign: "6div 3", "7mod 4", "1.+1"
+		if len(l.(*gen.Num).Lit) <= 3 {
+			for _, op := range []string{"div", "mod", "+", "-", "*"} {
+				a0 = append(a0, &gen.Bin{Op: op, L: l, R: lit("2", 2), GlueL: true})
+			}
+		}
 	}
 	// A1: leaves, unary minus chains, floor/ceiling of leaves
 	var a1 []gen.Expr
@@ -150,6 +156,17 @@ func c08Spaces(tier string) []*explore.Space {
 			}
 		}
 	}
+	// A7: arithmetic over nodes whose NAMES contain '-', '.' and digits (a-1 is a name, a -1 and a - 1 are subtractions)
+	var a7 []gen.Expr
+	for _, nm := range []string{"a-1", "a.b", "a1", "a-b", "a-1-1", "a"} {
+		p := relPath(gen.Ch(nm))
+		a7 = append(a7, gen.F("count", p), gen.F("sum", p), gen.F("number", p), gen.B("-", gen.F("count", p), lit("1", 1)), gen.B("-", p, lit("1", 1)), gen.B("+", p, relPath(gen.Ch("a"))),
+			gen.B("*", gen.F("count", p), relPath(gen.At(nm))), gen.B("div", gen.F("sum", p), gen.F("count", p)), &gen.Neg{E: p})
+	}
+	docs7 := func() []*doc.Tree {
+		return trees("V7names", &doc.Universe{MinN: 0, MaxN: 2, Names: []string{"a", "a-1", "a.b", "a1", "a-b", "a-1-1"}, NoComment: true,
+			Attr: "rule", AttrNames: []string{"a-1", "a.b"}, Vals: []string{"1", "2"}})
+	}
 	env := func(e *ref.Env) { e.SumNumericOnly = true; e.ModDomainOnly = true; e.StringNumSmall = true }
 	ev := &evalCfg{Prop: "C08", Ops: []string{"evaluate"}, Mode: "seq", Env: env}
 	n := 2
@@ -165,6 +182,7 @@ func c08Spaces(tier string) []*explore.Space {
 		exprSpace("A2", "one binary operator over all leaf pairs", a2, docs, ev),
 		exprSpace("A3", "two binary operators (with and without parentheses) over the reduced leaves", a3, docs, ev),
 		exprSpace("A4", "string() of numbers", a4, docs, ev),
+		exprSpace("A7", "count/sum/number and - + * div over nodes named a-1, a.b, a1, a-b, a-1-1 (names containing operator characters and digits)", a7, docs7, ev),
 		exprSpace("A6", "arithmetic over candidate-dependent leaves inside a predicate (several candidates per evaluation)", hostExprs(a6), docs,
 			&evalCfg{Prop: "C08", Ops: []string{"select"}, Mode: "set", Env: env, Base: func(i int) gen.Expr { return a6[i].base }}),
 	}
